@@ -343,6 +343,8 @@ func parseLinkDestination(block text.Reader) ([]byte, bool) {
 			} else if c == '>' {
 				block.Advance(i + 1)
 				return line[1:i], true
+			} else if c == '<' {
+				return nil, false
 			}
 			i++
 		}
@@ -366,6 +368,9 @@ func parseLinkDestination(block text.Reader) ([]byte, bool) {
 			break
 		}
 		i++
+	}
+	if opened > 0 {
+		return nil, false
 	}
 	block.Advance(i)
 	return line[:i], len(line[:i]) != 0
